@@ -221,6 +221,819 @@ def c07_operative(rebind: int, nma2: int, p1: int, s1: bool, ma1: int, mb1: int,
     return True
 
 
+# =====================================================================================================
+# Widened vocabulary (review of C07, items 1 and 3-12).  As in c07_operative every leaf is a concrete
+# native execution: the F-choices select WHICH kind of configurable / scope / value / signature / event
+# is exercised, the solver certifies that every combination was visited.
+# =====================================================================================================
+from vf.spec import literal as _literal
+
+DA, DB = world.DA, world.DB
+_P = world.__dict__.setdefault('_VW07', {})      # the extra probes live once per process
+
+
+def _define_probes():
+  if _P:
+    return
+  rec = world.rec
+
+  @gin.configurable(module='vw07')
+  class Base:
+
+    def __init__(self, a=DA, b=DB):
+      rec('Base', a, b)
+
+  @gin.configurable(module='vw07')
+  class Sub(Base):           # configurable subclass WITHOUT its own __init__: a wrapper around a wrapper
+    pass
+
+  @gin.configurable(module='vw07')
+  class SubSuper(Base):
+
+    def __init__(self, a=DA, c=-103):
+      rec('SubSuper', a, c)
+      super().__init__(a=a)
+
+  class Plain(Base):         # not configurable itself
+    pass
+
+  @gin.configurable(module='vw07')
+  class NewOnly:
+
+    def __new__(cls, a=DA, b=DB):
+      rec('NewOnly', a, b)
+      return object.__new__(cls)
+
+  class _Ext:
+
+    def __init__(self, a=DA, b=DB):
+      rec('Ext', a, b)
+
+  Ext = gin.external_configurable(_Ext, 'Ext', module='vw07')
+
+  @gin.configurable(module='vw07')
+  def caller(p=None):
+    rec('caller')
+    p()
+    return None
+
+  @gin.configurable(module='vw07')
+  def lst(a=[1]):            # mutates its own signature default
+    rec('lst', list(a))
+    a.append(9)
+
+  @gin.configurable(module='vw07')
+  def sdef(a='it\'s "q"\n', b=(1, 'x'), c={'k': [1]}, d='x' * 90, e=object(), f=lambda: 0, g={1, 2},
+           h=float('inf')):
+    rec('sdef', a, b, c, d)
+
+  @gin.configurable(module='vw07')
+  def boomer(a=DA):
+    raise KeyError('body')
+
+  @gin.configurable(module='vw07')
+  def nested(a=DA):          # defined inside a function: __qualname__ is not an attribute path of its module
+    rec('nested', a)
+
+  _P.update(nested=nested, Base=Base, Sub=Sub, SubSuper=SubSuper, Plain=Plain, NewOnly=NewOnly, Ext=Ext, caller=caller,
+            lst=lst, sdef=sdef, boomer=boomer)
+
+
+_define_probes()
+
+
+def _canon(v):
+  """Parsed value -> comparable form; a reference becomes ('ref', scope, full selector, evaluate)."""
+  if isinstance(v, tuple) and len(v) == 3 and v[0] == 'ref' and isinstance(v[1], str):
+    scope, _, sel = v[1].rpartition('/')
+    return ('ref', scope, gc._REGISTRY.get_match(sel).selector, v[2])
+  if isinstance(v, (list, tuple)):
+    return type(v)(_canon(x) for x in v)
+  if isinstance(v, dict):
+    return {k: _canon(x) for k, x in v.items()}
+  return v
+
+
+def _plain(v):
+  """Logged argument -> comparable across two runs (callables by name: scoped references are rebuilt per call)."""
+  if isinstance(v, (list, tuple)):
+    return type(v)(_plain(x) for x in v)
+  if isinstance(v, dict):
+    return {k: _plain(x) for k, x in v.items()}
+  if callable(v):
+    return 'callable:' + getattr(v, '__qualname__', type(v).__name__)
+  return v
+
+
+def _eff(binds, scope, sel):
+  """Bindings applicable to `sel` in `scope`: root, then every prefix of the scope, innermost last."""
+  parts = scope.split('/') if scope else []
+  out = {}
+  for i in range(len(parts) + 1):
+    out.update(binds.get(('/'.join(parts[:i]), sel), {}))
+  return out
+
+
+def _observe(names=None):
+  """-> (text, sections, macros, problem).  sections: {(scope, full selector): {param: value}},
+  macros: {(scope, name): value}; problem is a text when the operative text cannot even be read."""
+  try:
+    text = gin.operative_config_str()
+  except Exception as e:  # pylint: disable=broad-except
+    return None, None, None, 'operative_config_str() raised %s: %s' % (type(e).__name__, e)
+  try:
+    printed, binds = parse_text(text)
+  except Exception as e:  # pylint: disable=broad-except
+    return text, None, None, 'the operative text does not parse (%s: %s)\n%s' % (type(e).__name__, e, text)
+
+  def resolve(sel):
+    if names is not None:
+      return names.get(sel, sel)
+    return gc._REGISTRY.get_match(sel).selector
+
+  sections, macros = {}, {}
+  for p in printed:
+    scope, _, sel = p.rpartition('/')
+    sections[(scope, resolve(sel))] = {}
+  for (scope, sel), d in binds.items():
+    if '' in d:
+      macros[(scope, sel)] = _canon(d[''])
+      continue
+    key = (scope, resolve(sel))
+    if key not in sections:
+      return text, None, None, 'binding for %r outside a section\n%s' % (key, text)
+    sections[key] = {k: _canon(v) for k, v in d.items()}
+  return text, sections, macros, None
+
+
+def _compare(text, got_s, got_m, want_s, want_m, optional=()):
+  """Exact comparison; keys in `optional` may be missing from the text, but if present their parameters must
+  be a subset of the expected ones with the expected values."""
+  for key in optional:
+    if key in got_s and key in want_s:
+      extra = [p for p in got_s[key] if p not in want_s[key]]
+      if extra:
+        return 'section %r lists %r\n%s' % (key, extra, text)
+      want_s = dict(want_s)
+      want_s[key] = {p: want_s[key][p] for p in got_s[key]}
+    elif key in want_s:
+      want_s = {k: v for k, v in want_s.items() if k != key}
+  want_s = {k: _canon(v) for k, v in want_s.items()}
+  want_m = {k: _canon(v) for k, v in want_m.items()}
+  if sorted(got_s) != sorted(want_s):
+    return 'sections %r != %r\n%s' % (sorted(got_s), sorted(want_s), text)
+  for k in want_s:
+    if not _literal.same_value(got_s[k], want_s[k]):
+      return 'parameters of %r: %r != %r\n%s' % (k, got_s[k], want_s[k], text)
+  if sorted(got_m) != sorted(want_m) or not all(_literal.same_value(got_m[k], want_m[k]) for k in want_m):
+    return 'macro definitions %r != %r\n%s' % (got_m, want_m, text)
+  if 'vwc.K' in text.replace('%vwc.K', '') or 'gin.constant' in text:
+    return 'constant lookups must be omitted\n%s' % text
+  return None
+
+
+def _run(thunks):
+  """Runs the calls; -> comparable log: per call ('ok', what the probes received) or ('raised', type)."""
+  out = []
+  for t in thunks:
+    del world.LOG[:]
+    del world.SRC_CALLS[:]
+    try:
+      t()
+      tag = 'ok'
+    except Exception as e:  # pylint: disable=broad-except
+      tag = 'raised ' + type(e).__name__
+    out.append((tag, [(n, _plain(a), _plain(k), list(s)) for (n, a, k, s) in world.LOG],
+                [_plain(x) for x in world.SRC_CALLS]))
+  return out
+
+
+def _replay(text, thunks, first, calls=True):
+  """Second sentence of the statement: clear, parse the text, repeat the calls."""
+  gin.clear_config()
+  try:
+    gin.parse_config(text)
+  except Exception as e:  # pylint: disable=broad-except
+    return 'parse_config rejects the operative text (%s: %s)\n%s' % (type(e).__name__, e, text)
+  if not calls:
+    return None
+  second = _run(thunks)
+  if second != first:
+    return 'replayed calls received %r, originally %r\n%s' % (second, first, text)
+  again = gin.operative_config_str()
+  if again != text:
+    return 'replay does not reproduce the text:\n%s\n--- first ---\n%s' % (again, text)
+  return None
+
+
+def _in_scope(scope, fn):
+  def go():
+    if scope:
+      with gin.config_scope(scope):
+        return fn()
+    return fn()
+  return go
+
+
+def _supplied(defaults, applicable, caller):
+  d = dict(defaults)
+  d.update(applicable)
+  for n in caller:
+    d.pop(n, None)
+  return d
+
+
+# ---- item 4 (+1): ways to enter a scope, multi-component scopes, bindings on every prefix -------------
+NHOW = 9
+# partition groups (CrossHair stops a partition at its first counterexample: the dotted scope names, which fail on
+# the pinned tree, are kept apart from the kinds that hold)
+HOW_GROUP = [0, 0, 0, 1, 1, 1, 2, 3, 3]
+
+
+def c07_scopes(grp: int, how: int, b0: bool, b1: bool, b2: bool, bt: bool, ma: int) -> bool:
+  """
+  pre: 0 <= grp < 4 and 0 <= how < 9 and 0 <= ma < 2
+  """
+  grp = rt.pick(grp, 4)
+  how = rt.pick(how, NHOW)
+  if HOW_GROUP[how] != grp:
+    rt.discard()
+  b0, b1, b2, bt = rt.flag(b0), rt.flag(b1), rt.flag(b2), rt.flag(bt)
+  ma = rt.pick(ma, 2)
+  with rt.native():
+    world.fresh()
+    rt.sig(('scopes', how, b0, b1, b2, bt, ma), nontrivial=True)
+    via_ref = how in (6, 8)                    # the scoped thing is the evaluated reference @<scope>/vw.src()
+    target = 'vw.src' if via_ref else 'vw.dflt'
+    p1, p2 = ('v', 'v') if via_ref else ('a', 'b')
+    binds = {}
+    lines = []
+    for on, scope, param, val in ((b0, '', p1, 1), (b1, 's', p1, 2), (b2, 's/t', p2, 3), (bt, 't', p1, 4)):
+      if on:
+        binds.setdefault((scope, target), {})[param] = val
+        lines.append('%s%s.%s = %d' % (scope + '/' if scope else '', target, param, val))
+    if how == 6:
+      lines.append('vw.cons.p = @s/vw.src()')
+    if how == 8:
+      lines.append('vw.cons.p = @a.b/vw.src()')
+    gin.parse_config('\n'.join(lines))
+    pos = (101,) if ma else ()
+
+    def enter():
+      if how == 0:
+        with gin.config_scope('s/t'):
+          world.dflt(*pos)
+      elif how == 1:
+        with gin.config_scope('s'):
+          with gin.config_scope('t'):
+            world.dflt(*pos)
+      elif how == 2:
+        with gin.config_scope('s'):
+          with gin.config_scope(None):
+            world.dflt(*pos)
+      elif how == 3:
+        gin.get_configurable('s/vw.dflt')(*pos)
+      elif how == 4:
+        with gin.config_scope('t'):
+          gin.get_configurable('s/vw.dflt')(*pos)
+      elif how == 5:
+        with gin.config_scope('s/t'):
+          captured = gin.current_scope()
+        with gin.config_scope('u'):
+          with gin.config_scope(captured):
+            world.dflt(*pos)
+      elif how == 6:
+        with gin.config_scope('t'):
+          world.cons(*pos)
+      elif how == 7:
+        with gin.config_scope('a.b'):
+          world.dflt(*pos)
+      else:
+        world.cons(*pos)
+
+    first = _run([enter])
+    if first[0][0] != 'ok':
+      return rt.no('the call raised: %r' % (first,))
+    where = ['s/t', 's/t', '', 's', 's', 's/t', 's', 'a.b', 'a.b'][how]
+    # the probes log the scope they really ran in: the record is judged against that
+    if via_ref and not ma:
+      where = '/'.join(first[0][2][0][1])
+    elif not via_ref:
+      where = '/'.join(first[0][1][0][3])
+    want = {}
+    if via_ref:
+      outer = 't' if how == 6 else ''
+      ref = ('ref', where + '/vw.src', True)
+      want[(outer, 'vw.cons')] = _supplied({'p': None, 'q': None}, {'p': ref}, ['p'] if ma else [])
+      if not ma:
+        want[(where, 'vw.src')] = _supplied({'v': 0}, _eff(binds, where, 'vw.src'), [])
+    else:
+      want[(where, 'vw.dflt')] = _supplied({'a': DA, 'b': DB}, _eff(binds, where, 'vw.dflt'), ['a'] if ma else [])
+    text, got_s, got_m, bad = _observe()
+    bad = bad or _compare(text, got_s, got_m, want, {})
+    bad = bad or _replay(text, [enter], first)
+    if bad:
+      return rt.no(bad)
+    return True
+
+
+# ---- item 3: class configurables and inheritance --------------------------------------------------------
+CLS = ['Kinit', 'Kreg via get_configurable', 'Kreg called directly', 'Ext', 'NewOnly', 'Plain(Base)', 'Sub(Base)',
+       'SubSuper(Base)']
+CLS_SEL = ['vw.Kinit', 'vw.Kreg', 'vw.Kreg', 'vw07.Ext', 'vw07.NewOnly', 'vw07.Base', 'vw07.Sub', 'vw07.SubSuper']
+NCLS = len(CLS)
+
+
+def c07_classes(cls: int, sc: bool, ma: int, mb: int, bind: int, bb: bool) -> bool:
+  """
+  pre: 0 <= cls < 8 and 0 <= ma < 4 and 0 <= mb < 2 and 0 <= bind < 4
+  """
+  cls = rt.pick(cls, NCLS)
+  sc = rt.flag(sc)
+  ma, mb, bind = rt.pick(ma, 4), rt.pick(mb, 2), rt.pick(bind, 4)
+  bb = rt.flag(bb) if cls >= 5 else False
+  with rt.native():
+    world.fresh()
+    rt.sig(('classes', cls, sc, ma, mb, bind, bb), nontrivial=True)
+    sel = CLS_SEL[cls]
+    scope = 's' if sc else ''
+    second = 'c' if cls == 7 else 'b'
+    binds = {}
+    lines = []
+    if bind & 1:
+      binds[('', sel)] = {'a': 5}
+      lines.append('%s.a = 5' % sel)
+    if bind & 2:
+      binds[('s', sel)] = {'a': 6}
+      lines.append('s/%s.a = 6' % sel)
+    if bb:
+      binds.setdefault(('', 'vw07.Base'), {})['b'] = 7
+      lines.append('vw07.Base.b = 7')
+    gin.parse_config('\n'.join(lines))
+    applicable = _eff(binds, scope, sel)
+    if ma == 3 and ('a' not in applicable or cls == 2):
+      rt.discard()                       # a REQUIRED marker without an applicable binding fails (C10)
+    if cls == 6 and ma == 1 and 'a' in applicable:
+      # Sub(101) while Sub.a is bound raises "multiple values for argument 'a'": the wrapper of Sub sees the
+      # (*args, **kwargs) signature of the wrapper of Base and cannot name the positional.  Which arguments a
+      # call receives is C01/C11; there is no completed call whose record C07 could judge.
+      rt.discard()
+    pos, kw = [], {}
+    if ma == 1:
+      pos.append(101)
+    elif ma == 2:
+      kw['a'] = 101
+    elif ma == 3:
+      kw['a'] = gin.REQUIRED
+    if mb:
+      kw[second] = 202
+    caller = (['a'] if ma in (1, 2) else []) + ([second] if mb else [])
+
+    def make():
+      if cls == 0:
+        return world.Kinit(*pos, **kw)
+      if cls == 1:
+        return gin.get_configurable('vw.Kreg')(*pos, **kw)
+      if cls == 2:
+        return world.Kreg(*pos, **kw)       # @register leaves the class itself untouched
+      return _P[['Ext', 'NewOnly', 'Plain', 'Sub', 'SubSuper'][cls - 3]](*pos, **kw)
+
+    thunks = [_in_scope(scope, make)]
+    first = _run(thunks)
+    if first[0][0] != 'ok':
+      return rt.no('the construction raised: %r' % (first,))
+    text, got_s, got_m, bad = _observe()
+    if bad:
+      return rt.no(bad)
+    if cls == 2:
+      want = {}
+    elif cls == 7:
+      want = {(scope, sel): _supplied({'a': DA, 'c': -103}, applicable, caller),
+              (scope, 'vw07.Base'): _supplied({'a': DA, 'b': DB}, _eff(binds, scope, 'vw07.Base'), ['a'])}
+    else:
+      want = {(scope, sel): _supplied({'a': DA, 'b': DB}, applicable, caller)}
+    if cls != 6:
+      bad = _compare(text, got_s, got_m, want, {})
+    else:
+      # A configurable subclass that inherits the configurable constructor of its configurable base: the
+      # statement fixes the Sub section (Sub was called; what Gin supplied from Sub's bindings is listed, what
+      # the caller supplied is not).  Whether constructing a Sub also counts as a call of Base, and whether
+      # the inherited signature defaults count as supplied to Sub, is left open: anything listed in either
+      # section must be a value the constructor really received and must not be caller-supplied.
+      received = dict(zip(('a', 'b'), first[0][1][0][1]))
+      if (scope, sel) not in got_s or not set(got_s) <= {(scope, sel), (scope, 'vw07.Base')}:
+        bad = 'sections %r\n%s' % (sorted(got_s), text)
+      elif got_m:
+        bad = 'macro section %r' % (got_m,)
+      else:
+        if 'a' in applicable and 'a' not in caller and got_s[(scope, sel)].get('a', None) != applicable['a']:
+          bad = 'Sub.a was supplied by Gin from a binding and is not listed\n%s' % text
+        for key, params in got_s.items():
+          for p, v in params.items():
+            if p in caller or p not in received or not _literal.same_value(v, received[p]):
+              bad = 'section %r lists %s = %r; received %r, caller supplied %r\n%s' % (
+                  key, p, v, received, caller, text)
+    bad = bad or _replay(text, thunks, first)
+    if bad:
+      return rt.no(bad)
+    return True
+
+
+# ---- items 7 and 8: kinds of bound value, macro chains, singleton ---------------------------------------
+LONG = 'y' * 100
+_SRC = ('ref', 'vw.src', True)
+# value text (None: made with bind_parameter), canonical value, extra configuration,
+# evaluated configurables [(scope or 'CALL', selector, defaults, extra expected parameters)],
+# macros that must be defined {(scope, name): value}, representable
+VALS = [
+    ('None', None, [], [], {}, True),
+    ('1.5', 1.5, [], [], {}, True),
+    ('-3', -3, [], [], {}, True),
+    ('True', True, [], [], {}, True),
+    ('(1,)', (1,), [], [], {}, True),
+    ('[]', [], [], [], {}, True),
+    ('{}', {}, [], [], {}, True),
+    ('()', (), [], [], {}, True),
+    ("[@vw.src(), {'k': %mac}]", [_SRC, {'k': ('macro', 'mac')}], ['mac = 3'],
+     [('CALL', 'vw.src', {'v': 0}, {})], {('', 'mac'): 3}, True),
+    (None, 'LISTOBJ', [], [], {}, False),
+    ("'%s'" % LONG, LONG, [], [], {}, True),
+    ('\'it\\\'s "q"\\n\'', 'it\'s "q"\n', [], [], {}, True),
+    ('%m2', ('macro', 'm2'), ['mac = 3', 'm2 = %mac'], [], {('', 'mac'): 3, ('', 'm2'): ('macro', 'mac')}, True),
+    ('%mac', ('macro', 'mac'), ['mac = @vw.src()'], [('mac', 'vw.src', {'v': 0}, {})], {('', 'mac'): _SRC}, True),
+    ('[%s/mac, %mac]', [('macro', 's/mac'), ('macro', 'mac')], ['mac = 3', 's/mac = 4'], [],
+     {('', 'mac'): 3, ('s', 'mac'): 4}, True),
+    ('@k/gin.singleton()', ('ref', 'k/gin.singleton', True), ['k/gin.singleton.constructor = @vw.src'],
+     [('k', 'gin.singleton', {}, {'constructor': ('ref', 'vw.src', False)}), ('k', 'vw.src', {'v': 0}, {})], {}, True),
+    (repr(list(range(40))), list(range(40)), [], [], {}, True),
+    ("{'k': @vw.src}", {'k': ('ref', 'vw.src', False)}, [], [], {}, True),
+    ('%mac', ('macro', 'mac'), [], [], {}, False),              # the macro itself holds an object()
+    ("[(), {'a': [None, -0.5]}, 'x' 'y']", [(), {'a': [None, -0.5]}, 'xy'], [], [], {}, True),
+]
+NVALS = len(VALS)
+SRC_BINDS = {('', 'vw.src'): {'v': 9}, ('s', 'vw.src'): {'v': 8}, ('mac', 'vw.src'): {'v': 7}, ('k', 'vw.src'): {'v': 6}}
+
+
+def c07_values(val: int, where: int, ma: int) -> bool:
+  """
+  pre: 0 <= val < 20 and 0 <= where < 3 and 0 <= ma < 2
+  """
+  val = rt.pick(val, NVALS)
+  where = rt.pick(where, 3)       # 0: bound and called at root, 1: bound for scope s and called in s, 2: bound at root, called in s
+  ma = rt.pick(ma, 2)
+  with rt.native():
+    world.fresh()
+    rt.sig(('values', val, where, ma), nontrivial=True)
+    vtext, canon, extra, evaluated, macros, representable = VALS[val]
+    bscope = 's/' if where == 1 else ''
+    scope = 's' if where else ''
+    lines = ['%s%s.v = %d' % (sc + '/' if sc else '', sel, d['v']) for (sc, sel), d in SRC_BINDS.items()]
+    gin.parse_config('\n'.join(lines + extra))
+    if val == 9:
+      gin.bind_parameter(bscope + 'vw.cons.p', [1, object()])
+    else:
+      if val == 18:
+        gin.bind_parameter('mac/gin.macro.value', object())
+      gin.parse_config('%svw.cons.p = %s' % (bscope, vtext))
+    thunks = [_in_scope(scope, (lambda: world.cons(101)) if ma else world.cons)]
+    first = _run(thunks)
+    if first[0][0] != 'ok':
+      return rt.no('the call raised: %r' % (first,))
+    want = {(scope, 'vw.cons'): {'q': None}}
+    want_m = {}
+    if not ma:
+      if representable:
+        want[(scope, 'vw.cons')]['p'] = canon
+      elif val == 18:
+        want[(scope, 'vw.cons')]['p'] = canon       # '%mac' itself has a literal form; its definition has none
+      ran = ['/'.join(s) for _, s in first[0][2]]     # the scopes vw.src really ran in (it logs them)
+      for sc, sel, defaults, more in evaluated:
+        sc = scope if sc == 'CALL' else sc
+        if sel == 'vw.src':
+          if len(ran) != 1:
+            return rt.no('vw.src ran %r times' % (ran,))
+          sc = ran[0]
+        want[(sc, sel)] = _supplied(defaults, _eff(SRC_BINDS, sc, sel), [])
+        want[(sc, sel)].update(more)
+      want_m = macros
+    text, got_s, got_m, bad = _observe()
+    if val == 18 and not bad and 'p' not in got_s.get((scope, 'vw.cons'), {'p': 0}):
+      # what the function received through '%mac' is an object(): listing `cons.p = %mac` (the bound value has a
+      # literal form) and omitting it (the supplied value has none) are both within the statement
+      want[(scope, 'vw.cons')].pop('p', None)
+    bad = bad or _compare(text, got_s, got_m, want, want_m)
+    if not bad and (representable or ma):
+      bad = _replay(text, thunks, first)
+    if bad:
+      return rt.no(bad)
+    return True
+
+
+# ---- items 9 and 6: signatures (**kwargs, *args, keyword-only after *args, listed methods, REQUIRED
+#      defaults) and kinds of signature default ---------------------------------------------------------
+SIGS = ['kws', 'var', 'varkwo', 'KmethD.dmeth', 'KmethD.ameth', 'dflt', 'sdef', 'lst', 'req']
+NSIGS = len(SIGS)
+SDEF = {'a': 'it\'s "q"\n', 'b': (1, 'x'), 'c': {'k': [1]}, 'd': 'x' * 90}
+# per signature: selector, representable configurable defaults, binding made when `bound`,
+# four call modes (positional args, keyword args); None = no such mode
+R = 'REQUIRED'
+SIG_TABLE = {
+    'kws': ('vw.kws', {'a': DA}, {'extra': 1}, [((), {}), ((), {'extra': 5}), ((7,), {}), ((), {'a': 7, 'extra': 5})]),
+    'var': ('vw.var', {'b': DB}, {'b': 1}, [((1,), {}), ((1, 2), {}), ((1, 2, 3), {}), ((), {'a': 1})]),
+    'varkwo': ('vw.varkwo', {'a': DA, 'b': DB}, {'b': 1}, [((), {}), ((1,), {}), ((1, 2), {}), ((), {'b': 5})]),
+    'KmethD.dmeth': ('vw.KmethD.dmeth', {'a': DA}, {'a': 1}, [((), {}), ((1,), {}), ((), {'b': 2}), ((), {'a': 1, 'b': 2})]),
+    'KmethD.ameth': ('vw.KmethD.ameth', {'a': DA}, {'a': 1}, [((), {}), ((1,), {}), ((), {'b': 2}), ((), {'a': 1, 'b': 2})]),
+    'dflt': ('vw.dflt', {'a': DA, 'b': DB}, {'a': 1}, [((1, 2), {}), ((1,), {'b': 2}), ((), {'a': 1, 'b': 2}), ((), {'a': R, 'b': 2})]),
+    'sdef': ('vw07.sdef', SDEF, {'a': 'z'}, [((), {}), ((), {'a': 'w'}), ((), {'d': 'short'}), ((), {'e': 1})]),
+    'lst': ('vw07.lst', None, {'a': [5]}, [((), {}), None, None, None]),
+    'req': ('vw.req', {'d': world.DD}, {'b': 2, 'c': 3}, [((1,), {}), ((1, 2), {'c': 3}), ((1, R), {'c': 3}), ((1, 2), {'c': R})]),
+}
+SIG_NAMES = {'vw.kws': ('a',), 'vw.var': ('a', 'b'), 'vw.varkwo': ('a',), 'vw.KmethD.dmeth': ('a', 'b'),
+             'vw.KmethD.ameth': ('a', 'b'), 'vw.dflt': ('a', 'b'), 'vw07.sdef': ('a', 'b', 'c', 'd'), 'vw07.lst': ('a',),
+             'vw.req': ('a', 'b')}
+
+
+def c07_sigs(sg: int, mode: int, bound: bool, twice: bool) -> bool:
+  """
+  pre: 0 <= sg < 9 and 0 <= mode < 4
+  """
+  sg = rt.pick(sg, NSIGS)
+  mode = rt.pick(mode, 4)
+  bound, twice = rt.flag(bound), rt.flag(twice)
+  with rt.native():
+    world.fresh()
+    name = SIGS[sg]
+    sel, defaults, binding, modes = SIG_TABLE[name]
+    if modes[mode] is None:
+      rt.discard()
+    rt.sig(('sigs', name, mode, bound, twice), nontrivial=True)
+    pos, kw = modes[mode]
+    uses_required = R in pos or R in kw.values()
+    needs = name == 'req' and not (len(pos) > 1 and 'c' in kw)
+    if (uses_required or needs) and not bound:
+      rt.discard()
+    if bound:
+      for p, v in binding.items():
+        gin.bind_parameter('%s.%s' % (sel, p), v)
+    pos = tuple(gin.REQUIRED if x == R else x for x in pos)
+    kw = {k: (gin.REQUIRED if v == R else v) for k, v in kw.items()}
+    caller = [n for n, v in zip(SIG_NAMES[sel], pos) if v is not gin.REQUIRED]
+    caller += [k for k, v in kw.items() if v is not gin.REQUIRED]
+
+    def go():
+      if name.startswith('KmethD.'):
+        with gin.config_scope(None):
+          obj = gin.get_configurable('vw.KmethD')()
+        return getattr(obj, name.split('.')[1])(*pos, **kw)
+      if sel.startswith('vw07.'):
+        return _P[name](*pos, **kw)
+      return getattr(world, name)(*pos, **kw)
+
+    # `twice`: the same call is repeated (the record is an update, not a replacement)
+    thunks = [_in_scope('s', go)] * (2 if twice else 1)
+    first = _run(thunks)
+    if any(r[0] != 'ok' for r in first):
+      return rt.no('a call raised: %r' % (first,))
+    text, got_s, got_m, bad = _observe()
+    if bad:
+      return rt.no(bad)
+    want = {}
+    if name.startswith('KmethD.'):
+      want[('', 'vw.KmethD')] = {}
+    if name == 'lst' and not bound:
+      # The function appends to its own default list.  The statement does not say whether "the signature
+      # default" is the list as it was when the call began or as the function left it (the record keeps the
+      # very object): both are accepted, and repeating the calls is not the same experiment (Python itself
+      # hands the mutated default to the next call), so the replay clause is not applied.
+      got = got_s.get(('s', sel))
+      if set(got_s) != {('s', sel)} or got is None or set(got) != {'a'}:
+        return rt.no('sections %r\n%s' % (got_s, text))
+      seen = [r[1][0][1][0] for r in first]                # the list each call received
+      after = seen[-1] + [9]
+      if not any(_literal.same_value(got['a'], x) for x in seen + [after]):
+        return rt.no('lst.a = %r, received %r' % (got['a'], seen))
+      try:
+        gin.clear_config()
+        gin.parse_config(text)
+      except Exception as e:  # pylint: disable=broad-except
+        return rt.no('parse_config rejects the operative text: %s' % e)
+      return True
+    want[('s', sel)] = _supplied(defaults if defaults is not None else {}, binding if bound else {}, caller)
+    bad = _compare(text, got_s, got_m, want, {})
+    bad = bad or _replay(text, thunks, first)
+    if bad:
+      return rt.no(bad)
+    return True
+
+
+# ---- items 10, 11, 12: failing calls, non-calls, references invoked by user code, changes between calls -----
+EVENTS = ['req() nothing bound', 'req(1) c missing', 'evaluated reference raises', 'body raises', 'plain() lacks b',
+          'undefined macro', 'get_bindings', 'query_parameter', 'get_configurable not called',
+          'caller invokes @s/vw.src', 'caller invokes @vw.src', 'cons returns @vw.src, invoked later in u',
+          'caller invokes @s/vw.Kinit', 'caller invokes @s/vw.Kreg', 'cons keeps @s/vw.src uninvoked',
+          'rebind 1 -> object()', 'rebind object() -> 1', 'clear_config between calls', 'calls in s, root, s',
+          'rebind 1 -> 2', 'scoped binding added between calls']
+NEV = len(EVENTS)
+# partition groups: failing calls / non-calls and invoked references / histories / the undefined macro on its own
+# (CrossHair stops a partition at its first counterexample: an input that fails must not hide its neighbours)
+EV_GROUP = [0, 0, 0, 0, 0, 3, 1, 1, 1, 1, 1, 1, 1, 1, 1, 2, 2, 2, 2, 2, 2]
+
+
+def c07_events(grp: int, ev: int, sc: bool) -> bool:
+  """
+  pre: 0 <= grp < 4 and 0 <= ev < 21
+  """
+  grp = rt.pick(grp, 4)
+  ev = rt.pick(ev, NEV)
+  if EV_GROUP[ev] != grp:
+    rt.discard()
+  sc = rt.flag(sc)
+  with rt.native():
+    world.fresh()
+    rt.sig(('events', ev, sc), nontrivial=True)
+    w = 'w' if sc else ''
+    obj = object()
+    cfg = ['vw.src.v = 9', 's/vw.src.v = 8', 'u/vw.src.v = 7', 'w/vw.src.v = 6']
+    binds = {('', 'vw.src'): {'v': 9}, ('s', 'vw.src'): {'v': 8}, ('u', 'vw.src'): {'v': 7}, ('w', 'vw.src'): {'v': 6}}
+    src_at = lambda scope: _supplied({'v': 0}, _eff(binds, scope, 'vw.src'), [])
+    want, optional, steps, expect_raise = {}, [], None, None
+    fixed_config = True          # the replay clause speaks about one configuration
+    if ev == 0:
+      steps = [_in_scope(w, world.req)]
+      want[(w, 'vw.req')] = {'d': world.DD}
+      optional, expect_raise = [(w, 'vw.req')], 'RuntimeError'
+    elif ev == 1:
+      cfg.append('vw.req.b = 2')
+      steps = [_in_scope(w, lambda: world.req(1))]
+      want[(w, 'vw.req')] = {'b': 2, 'd': world.DD}
+      optional, expect_raise = [(w, 'vw.req')], 'RuntimeError'
+    elif ev == 2:
+      cfg.append('vw.cons.p = @vw07.boomer()')
+      steps = [_in_scope(w, world.cons)]
+      want[(w, 'vw.cons')] = {'p': ('ref', 'vw07.boomer', True), 'q': None}
+      want[(w, 'vw07.boomer')] = {'a': DA}
+      optional, expect_raise = [(w, 'vw.cons'), (w, 'vw07.boomer')], 'KeyError'
+    elif ev == 3:
+      cfg.append('vw07.boomer.a = 3')
+      steps = [_in_scope(w, _P['boomer'])]
+      want[(w, 'vw07.boomer')] = {'a': 3}
+      optional, expect_raise = [(w, 'vw07.boomer')], 'KeyError'
+    elif ev == 4:
+      cfg.append('vw.plain.a = 1')
+      steps = [_in_scope(w, world.plain)]
+      want[(w, 'vw.plain')] = {'a': 1}
+      optional, expect_raise = [(w, 'vw.plain')], 'TypeError'
+    elif ev == 5:
+      cfg.append('vw.dflt.a = %nomac')
+      steps = [_in_scope(w, world.dflt)]
+      want[(w, 'vw.dflt')] = {'a': ('macro', 'nomac'), 'b': DB}
+      optional, expect_raise = [(w, 'vw.dflt')], 'TypeError'
+    elif ev in (6, 7, 8):
+      cfg += ['vw.cons.p = @vw.src()', 'vw.cons.q = 1']
+      if ev == 6:
+        steps = [_in_scope(w, lambda: gin.get_bindings('vw.cons'))]
+      elif ev == 7:
+        steps = [_in_scope(w, lambda: gin.query_parameter('vw.cons.q'))]
+      else:
+        steps = [_in_scope(w, lambda: (gin.get_configurable('vw.cons'), gin.get_configurable('s/vw.cons')))]
+    elif ev in (9, 10, 12, 13):
+      ref = ['@s/vw.src', '@vw.src', None, '@s/vw.Kinit', '@s/vw.Kreg'][ev - 9]
+      cfg.append('vw07.caller.p = ' + ref)
+      steps = [_in_scope(w, _P['caller'])]
+      want[(w, 'vw07.caller')] = {'p': ('ref', ref[1:], False)}
+      if ev == 9:
+        want[('s', 'vw.src')] = src_at('s')
+      elif ev == 10:
+        want[(w, 'vw.src')] = src_at(w)
+      else:
+        want[('s', ref[3:])] = {'a': DA, 'b': DB}
+    elif ev == 11:
+      cfg.append('vw.cons.p = @vw.src')
+
+      def later():
+        p, _ = world.cons()
+        with gin.config_scope('u'):
+          p()
+      steps = [_in_scope(w, later)]
+      uw = (w + '/u') if w else 'u'
+      binds[('w/u', 'vw.src')] = {}
+      want[(w, 'vw.cons')] = {'p': ('ref', 'vw.src', False), 'q': None}
+      want[(uw, 'vw.src')] = src_at(uw)
+    elif ev == 14:
+      cfg.append('vw.cons.p = @s/vw.src')
+      steps = [_in_scope(w, world.cons)]
+      want[(w, 'vw.cons')] = {'p': ('ref', 's/vw.src', False), 'q': None}
+    elif ev in (15, 16, 19, 20):
+      fixed_config = False
+      a1, a2 = {15: (1, obj), 16: (obj, 1), 19: (1, 2), 20: (1, 1)}[ev]
+
+      def two():
+        gin.bind_parameter('vw.dflt.a', a1)
+        world.dflt()
+        if ev == 20:
+          gin.bind_parameter('w/vw.dflt.b', 4)
+        else:
+          gin.bind_parameter('vw.dflt.a', a2)
+        world.dflt(b=202) if ev == 19 else world.dflt()
+      steps = [_in_scope(w, two)]
+      want[(w, 'vw.dflt')] = {'a': a2, 'b': 4 if (ev == 20 and w) else DB}
+      if a2 is obj:
+        del want[(w, 'vw.dflt')]['a']      # shown: the value used most recently, if it has a literal form
+    elif ev == 17:
+      fixed_config = False
+      cfg.append('vw.dflt.a = 1')
+
+      def cleared():
+        world.dflt()
+        gin.clear_config()
+        world.cons()
+      steps = [_in_scope(w, cleared)]
+      want[(w, 'vw.cons')] = {'p': None, 'q': None}
+    elif ev == 18:
+      cfg.append('vw.dflt.a = 1')
+      steps = [_in_scope('s', world.dflt), _in_scope(w, world.dflt), _in_scope('s', lambda: world.dflt(101, b=202))]
+      want[('s', 'vw.dflt')] = {'a': 1, 'b': DB}
+      want[(w, 'vw.dflt')] = {'a': 1, 'b': DB}
+    gin.parse_config('\n'.join(cfg))
+    first = _run(steps)
+    outcome = first[0][0]
+    if expect_raise is None and any(r[0] != 'ok' for r in first):
+      return rt.no('a call raised: %r' % (first,))
+    if expect_raise is not None and outcome != 'raised ' + expect_raise:
+      return rt.no('expected %s, got %r' % (expect_raise, first))
+    # evaluated @vw.src() references (get_bindings evaluates them): src really ran, in the scope it logged
+    if ev == 6:
+      for _, scope in first[0][2]:
+        want[('/'.join(scope), 'vw.src')] = src_at('/'.join(scope))
+    text, got_s, got_m, bad = _observe()
+    # A call that FAILED: the statement does not say whether it counts as "called".  Its section (and that of
+    # a configurable it reached) may be present or absent; present, it lists only what Gin was supplying.
+    bad = bad or _compare(text, got_s, got_m, want, {}, optional)
+    if not bad and fixed_config:
+      # get_bindings / query_parameter / get_configurable are not calls of a configurable: the text owes them
+      # nothing beyond being acceptable to parse_config
+      bad = _replay(text, steps, first, calls=ev not in (6, 7, 8))
+    if bad:
+      return rt.no(bad)
+    return True
+
+
+# ---- item 5: statically registered probes called while dynamic registration is on ------------------------
+DYN = [('dflt', 'vw.dflt', 'dflt', 'a', {'a': DA, 'b': DB}), ('wrapped', 'vw.wrapped', 'wrapped', 'a', {}),
+       ('case_upper', 'vw.case.Foo', 'case_upper', 'p', {'p': 0}), ('Kmeth.meth', 'vw.Kmeth.meth', 'Kmeth.meth', 'a', {'a': DA, 'b': DB}),
+       ('fam_xm', 'vw.x.m.fam', 'fam_xm', 'p', {'p': 0}), ('Kinit', 'vw.Kinit', 'Kinit', 'a', {'a': DA, 'b': DB}),
+       ('nested', 'vw07.nested', '_define_probes.<locals>.nested', 'a', {'a': DA})]
+NDYN = len(DYN)
+DYN_GROUP = [0, 0, 0, 1, 1, 1, 2]      # the function defined inside a function fails on the pinned tree: own partition
+
+
+def c07_dynamic(grp: int, probe: int, bound: bool, sc: bool, ma: int) -> bool:
+  """
+  pre: 0 <= grp < 3 and 0 <= probe < 7 and 0 <= ma < 2
+  """
+  grp = rt.pick(grp, 3)
+  probe = rt.pick(probe, NDYN)
+  if DYN_GROUP[probe] != grp:
+    rt.discard()
+  bound, sc = rt.flag(bound), rt.flag(sc)
+  ma = rt.pick(ma, 2)
+  with rt.native():
+    world.fresh()
+    rt.sig(('dynamic', probe, bound, sc, ma), nontrivial=True)
+    attr, sel, qual, param, defaults = DYN[probe]
+    scope = 's' if sc else ''
+    gin.parse_config('from __gin__ import dynamic_registration')
+    if bound:
+      gin.bind_parameter('%s%s.%s' % ('s/' if sc else '', sel, param), 3)
+    kw = {param: 101} if ma else {}
+
+    def go():
+      if attr == 'Kmeth.meth':
+        with gin.config_scope(None):
+          obj = gin.get_configurable('vw.Kmeth')()
+        return obj.meth(**kw)
+      if attr == 'nested':
+        return _P['nested'](**kw)
+      return getattr(world, attr)(**kw)
+
+    thunks = [_in_scope(scope, go)]
+    first = _run(thunks)
+    if first[0][0] != 'ok':
+      return rt.no('the call raised %r' % (first,))
+    # the text must name the probes through an import it writes itself
+    names = {'world.' + qual: sel, 'world.Kmeth': 'vw.Kmeth', 'vf.world.' + qual: sel, 'vf.world.Kmeth': 'vw.Kmeth',
+             'c07.' + qual: sel, 'vf.harness.c07.' + qual: sel}
+    text, got_s, got_m, bad = _observe(names)
+    want = {(scope, sel): _supplied(defaults, {param: 3} if bound else {}, [param] if ma else [])}
+    if attr == 'Kmeth.meth':
+      want[('', 'vw.Kmeth')] = {}
+    bad = bad or _compare(text, got_s, got_m, want, {})
+    bad = bad or _replay(text, thunks, first)
+    if bad:
+      return rt.no(bad)
+    return True
+
+
 HARNESSES = {
     'c07_operative': dict(
         fn='c07_operative',
@@ -239,7 +1052,103 @@ HARNESSES = {
                '@src(), %macro, %CONSTANT, non-representable object, @src, dict) and/or in scope s; between two calls of one probe '
                'the binding may be replaced by an equal-comparing different value (1/True, 0/False, two macros, one '
                'configurable under two scopes)'),
+    'c07_scopes': dict(
+        fn='c07_scopes',
+        anchors=['gin.config:gin_wrapper', 'gin.config:operative_config_str', 'gin.config:_decorate_with_scope'],
+        smoke=[dict(grp=0, how=0, b0=True, b1=True, b2=True, bt=True, ma=0), dict(grp=0, how=1, b0=False, b1=True, b2=False, bt=False, ma=1),
+               dict(grp=0, how=2, b0=True, b1=True, b2=False, bt=False, ma=0), dict(grp=1, how=3, b0=True, b1=True, b2=False, bt=False, ma=0),
+               dict(grp=1, how=4, b0=False, b1=True, b2=False, bt=True, ma=0), dict(grp=1, how=5, b0=False, b1=True, b2=True, bt=False, ma=0),
+               dict(grp=2, how=6, b0=True, b1=True, b2=False, bt=True, ma=0), dict(grp=3, how=7, b0=True, b1=False, b2=False, bt=False, ma=0),
+               dict(grp=3, how=8, b0=True, b1=False, b2=False, bt=False, ma=0)],
+        tiers={'quick': dict(split=dict(grp=[0, 1, 2, 3]), budget_s=100),
+               'thorough': dict(split=dict(grp=[0, 1, 2, 3]), budget_s=300)},
+        bounds='one call of dflt (first parameter omitted / positional) whose scope is entered in 9 ways: '
+               "config_scope('s/t'), nested s then t, config_scope(None) inside s, get_configurable('s/vw.dflt') at root "
+               'and inside scope t, re-entering a captured scope list inside another scope, an evaluated @s/vw.src() '
+               "while t is active, the dotted scope name 'a.b' (config_scope and reference); bindings present or "
+               'absent (16 combinations) on root, s, s/t (other parameter) and t'),
+    'c07_classes': dict(
+        fn='c07_classes',
+        anchors=['gin.config:gin_wrapper', 'gin.config:_find_class_construction_fn', 'gin.config:meta_call_wrapper'],
+        smoke=[dict(cls=0, sc=False, ma=0, mb=0, bind=1, bb=False), dict(cls=1, sc=True, ma=1, mb=0, bind=2, bb=False),
+               dict(cls=2, sc=False, ma=0, mb=0, bind=1, bb=False), dict(cls=3, sc=True, ma=3, mb=1, bind=3, bb=False),
+               dict(cls=4, sc=False, ma=2, mb=0, bind=0, bb=False), dict(cls=5, sc=True, ma=0, mb=0, bind=2, bb=True),
+               dict(cls=6, sc=False, ma=0, mb=0, bind=1, bb=True), dict(cls=7, sc=True, ma=0, mb=1, bind=3, bb=True)],
+        tiers={'quick': dict(split=dict(cls=list(range(NCLS)), sc=[False, True]), budget_s=100),
+               'thorough': dict(split=dict(cls=list(range(NCLS)), sc=[False, True]), budget_s=300)},
+        bounds='one construction of 8 kinds of class (@configurable class, @register class through get_configurable and '
+               'called directly, external_configurable class, class with __new__ only, non-configurable subclass of a '
+               'configurable base, configurable subclass without own __init__ of a configurable base, configurable '
+               'subclass calling super().__init__(a=a)), in scope none/s, first parameter omitted / positional / keyword / '
+               'gin.REQUIRED, second omitted / keyword, binding of the first parameter at root and/or in s, optional '
+               'binding on the base class'),
+    'c07_values': dict(
+        fn='c07_values',
+        anchors=['gin.config:gin_wrapper', 'gin.config:operative_config_str', 'gin.config:_is_literally_representable'],
+        smoke=[dict(val=v, where=v % 3, ma=0) for v in range(NVALS)] + [dict(val=8, where=2, ma=1)],
+        tiers={'quick': dict(split=dict(where=[0, 1, 2], ma=[0, 1]), budget_s=100),
+               'thorough': dict(split=dict(where=[0, 1, 2], ma=[0, 1]), budget_s=300)},
+        bounds='cons.p bound to one of 20 kinds of value (None, float, negative int, bool, 1-tuple, empty list/dict/tuple, '
+               'references and a macro nested in containers, a list holding an object(), a 100-character string, a '
+               'string with both quotes and a newline, a macro chain, a macro bound to @src(), scoped and unscoped macros, '
+               '@k/gin.singleton(), a list longer than a line, an unevaluated reference in a dict, a macro bound to an '
+               'object(), adjacent strings and nested empties), bound at root or for scope s, called at root or in s, '
+               'p omitted or supplied by the caller'),
+    'c07_sigs': dict(
+        fn='c07_sigs',
+        anchors=['gin.config:gin_wrapper', 'gin.config:_get_supplied_positional_parameter_names',
+                 'gin.config:operative_config_str'],
+        smoke=[dict(sg=s, mode=s % 4 if s != 7 else 0, bound=True, twice=bool(s % 2)) for s in range(NSIGS)] +
+              [dict(sg=7, mode=0, bound=False, twice=True), dict(sg=0, mode=1, bound=True, twice=False),
+               dict(sg=6, mode=0, bound=False, twice=False)],
+        tiers={'quick': dict(split=dict(mode=[0, 1, 2, 3]), budget_s=100),
+               'thorough': dict(split=dict(mode=[0, 1, 2, 3]), budget_s=300)},
+        bounds='9 signatures (**kwargs, *args, keyword-only after *args, registered methods with deny / allow list, two '
+               'plain parameters, string/tuple/dict/long/non-representable defaults, a mutable default the function mutates, '
+               'gin.REQUIRED signature defaults) x 4 call modes each (positional, keyword, extra positionals, REQUIRED '
+               'markers) x binding present/absent x the call made once or twice, in scope s'),
+    'c07_events': dict(
+        fn='c07_events',
+        anchors=['gin.config:gin_wrapper', 'gin.config:operative_config_str', 'gin.config:scope_decorator'],
+        smoke=[dict(grp=EV_GROUP[e], ev=e, sc=bool(e % 2)) for e in range(NEV)],
+        tiers={'quick': dict(split=dict(grp=[0, 1, 2, 3]), budget_s=100),
+               'thorough': dict(split=dict(grp=[0, 1, 2, 3]), budget_s=300)},
+        bounds='21 event kinds in scope none/w: 6 failing calls (missing REQUIRED, evaluated reference raising, body raising, '
+               'missing positional, undefined macro), 3 non-calls (get_bindings, query_parameter, get_configurable), 6 '
+               'references invoked (or not) by user code (scoped / unscoped function, later in another scope, scoped '
+               '@configurable and @register classes), 6 histories (rebinding to / from object(), to another value, '
+               'clear_config between calls, s / root / s, a scoped binding added between calls)'),
+    'c07_dynamic': dict(
+        fn='c07_dynamic',
+        anchors=['gin.config:gin_wrapper', 'gin.config:require_configurable', 'gin.config:minimal_selector'],
+        smoke=[dict(grp=DYN_GROUP[p], probe=p, bound=bool(p % 2), sc=bool(p % 3 == 0), ma=0) for p in range(NDYN)] +
+              [dict(grp=0, probe=0, bound=True, sc=True, ma=1)],
+        tiers={'quick': dict(split=dict(grp=[0, 1, 2]), budget_s=100),
+               'thorough': dict(split=dict(grp=[0, 1, 2]), budget_s=300)},
+        bounds="after 'from __gin__ import dynamic_registration', one call of 7 statically registered probes that no file "
+               'imported (function, functools.wraps-wrapped function, function registered under another name, registered '
+               'method, function registered under a shared family name, @configurable class, function defined inside a '
+               'function), binding present/absent, '
+               'scope none/s, parameter omitted / keyword'),
 }
-RULE = 'one case per distinct (calls, bindings) tuple; non-trivial: a binding exists or there are two calls'
+RULE = ('one case per distinct tuple of F-choices (calls, bindings, kind of class / scope entry / value / signature / event); '
+        'non-trivial: a binding exists or there are two calls (c07_operative), every case of the widened harnesses')
 SOLVER_ROLE = ('certifies coverage: the record is observed through operative_config_str(), i.e. Gin stringifies every value, so all '
                'inputs are F-choices and every leaf is a concrete native execution; the solver proves the bounded space was covered')
+OUTSIDE = ('positional-only parameters (def f(a=DA, /): the recorded default is replayed as a keyword and the call raises - not one '
+           'of the listed shapes); a bound container mutated through query_parameter() after the call; provenance comments, other '
+           'line widths and markdown (C06); real threads (C18); a positional argument given to a configurable subclass that '
+           'inherits the configurable constructor of its configurable base while that parameter is bound (the call itself raises '
+           '"multiple values": C01/C11, discarded in c07_classes)')
+ASSUMPTIONS = ['a call that FAILS (missing REQUIRED binding, evaluated reference or body raising, missing positional) may or may not '
+               'count as "called": its section may be present or absent; present, it may list only what Gin was supplying; in both '
+               'cases the text must parse, and repeating the calls must fail alike and reproduce the text',
+               'a configurable subclass WITHOUT its own __init__ of a configurable base: the Sub section is required; a Base '
+               'section and inherited signature defaults are accepted either way, provided every listed value is the one the '
+               'constructor received and nothing the caller supplied is listed',
+               'a function that mutates its own mutable signature default: the value shown may be the list before or after the '
+               'mutation, and the replay clause is not applied (Python itself hands the mutated default to the next call)',
+               'get_bindings / query_parameter / get_configurable are not calls: they must add no section for that configurable '
+               '(references evaluated by get_bindings did run and are recorded); the replay clause asks only that the text parses',
+               'the scope a probe "was called in" is the scope it observed through gin.current_scope() while running (C09 decides '
+               'whether that scope is the right one)']
